@@ -8,11 +8,18 @@
 EXTENDS Session, Json
 
 (* print behaviours that end with a Dump, or a failed Construct, i.e. complete shapes *)
+CallsAt == {i \in 1..Len(hist) : hist[i].op = "Call"}
 Complete == /\ Len(hist) > 0
             /\ \/ hist[Len(hist)].op = "Dump"
                \/ (hist[Len(hist)].op = "Construct" /\ ~IsOk(hist[Len(hist)].mode))
-(* shapes: no repeated failed constructs; at most one Call before the Dump; keeps the space linear *)
-Shape == /\ Cardinality({i \in 1..Len(hist) : hist[i].op = "Call"}) <= 1
+               \/ (hist[Len(hist)].op = "Call" /\ Cardinality(CallsAt) = 2)
+(* shapes: no repeated failed constructs; one Call before the Dump, or two Calls of the same object with the same     *)
+(* container and the same number of points (>= 3) in two different orders ("in the order given" must hold for the    *)
+(* second request as well); keeps the space linear                                                                   *)
+TwoCallsOK == \A i, j \in CallsAt : i < j => /\ hist[i].container = hist[j].container /\ hist[i].n = hist[j].n /\ hist[i].n >= 3
+                                              /\ hist[i].order # hist[j].order /\ hist[1].mode = "ok"
+Shape == /\ Cardinality(CallsAt) <= 2 /\ TwoCallsOK
+         /\ (Cardinality(CallsAt) = 2 => Cardinality({i \in 1..Len(hist) : hist[i].op = "Dump"}) = 0)
          /\ Cardinality({i \in 1..Len(hist) : hist[i].op = "Construct"}) <= 1
          /\ Cardinality({i \in 1..Len(hist) : hist[i].op = "Dump"}) <= 1
 Emit == IF Complete THEN PrintT(ToJson([behaviour |-> hist])) ELSE TRUE
